@@ -128,6 +128,7 @@ func runCheck(id, tier string) int {
 	}
 
 	inconclusive := []string{}
+	bmcStates, bmcTransitions, bmcReplayed := 0, 0, 0
 	violations := 0
 	knownHit := map[string]string{}
 	var harnessSummaries []map[string]interface{}
@@ -243,6 +244,9 @@ func runCheck(id, tier string) int {
 			continue
 		}
 		br := w.RunBMC(id, bs, tier, kfs)
+		bmcStates += br.States
+		bmcTransitions += br.Transitions
+		bmcReplayed += br.Replayed
 		harnessSummaries = append(harnessSummaries, br.Summary)
 		inconclusive = append(inconclusive, br.Inconclusive...)
 		for k, v := range br.Known {
@@ -283,8 +287,12 @@ func runCheck(id, tier string) int {
 		obl = append(obl, o)
 	}
 	sort.Strings(obl)
+	level := "other"
+	if len(spec.BMC) > 0 && len(spec.Harnesses) == 0 {
+		level = "model_checking"
+	}
 	ev := Evidence{
-		PropertyID: id, Tier: tier, Seed: seedEnv(), Level: "other",
+		PropertyID: id, Tier: tier, Seed: seedEnv(), Level: level,
 		Coverage: map[string]interface{}{
 			"explanation":         spec.Explanation,
 			"evaluations":         nq,
@@ -309,6 +317,11 @@ func runCheck(id, tier string) int {
 		Assumptions: spec.Assumptions,
 		WallS:       time.Since(t0).Seconds(),
 		Violations:  violations,
+	}
+	if len(spec.BMC) > 0 {
+		ev.Coverage["states"] = bmcStates
+		ev.Coverage["transitions"] = bmcTransitions
+		ev.Coverage["traces_validated_against_impl"] = bmcReplayed
 	}
 	os.MkdirAll(filepath.Join(vd, "evidence"), 0o755)
 	b, _ := json.MarshalIndent(ev, "", " ")
